@@ -371,6 +371,21 @@ macro_rules! with_shape {
     };
 }
 
+impl Shape {
+    /// `iterator_protocol` on `points()` of the primitive.
+    pub fn points_protocol(&self, d: &mut Dec) -> crate::engine::Res {
+        use embedded_graphics::primitives::PointsIter;
+        let kind = self.kind();
+        crate::with_shape!(self, |p| iterator_protocol(&|| p.points(), d, &format!("{}:points", kind)))
+    }
+    /// `iterator_protocol` on `pixels()` of the styled primitive.
+    pub fn pixels_protocol<C: Col>(&self, style: &PrimitiveStyle<C>, d: &mut Dec) -> crate::engine::Res {
+        use embedded_graphics::primitives::Primitive;
+        let kind = self.kind();
+        crate::with_shape!(self, |p| iterator_protocol(&|| p.into_styled(*style).pixels(), d, &format!("{}:pixels", kind)))
+    }
+}
+
 /// Parameters for shape generation.
 #[derive(Clone, Copy)]
 pub struct ShapeDom {
@@ -385,7 +400,12 @@ pub fn shape_of_kind(d: &mut Dec, kind: u32, dom: ShapeDom) -> Shape {
     match kind {
         0 => Shape::Rect(rect(d, r, max)),
         1 => Shape::Circle(Circle::new(point(d, r), d.size(max))),
-        2 => Shape::Ellipse(Ellipse::new(point(d, r), size(d, max))),
+        2 => {
+            let (p, sz) = (point(d, r), size(d, max));
+            // auxiliary word 6: one ellipse in eight has equal axes (the circle special case of the ellipse code)
+            let sz = if d.aux_u(6, 0, 7) == 7 { Size::new(sz.width, sz.width) } else { sz };
+            Shape::Ellipse(Ellipse::new(p, sz))
+        }
         3 => {
             let rc = rect(d, r, max);
             let radii = corner_radii(d, max);
@@ -403,6 +423,7 @@ pub fn shape_of_kind(d: &mut Dec, kind: u32, dom: ShapeDom) -> Shape {
                 2 => p1 + (p2 - p1) * 2, // colinear
                 _ => point(d, r),
             };
+            let (p2, p3) = structure_triangle(d, p1, p2, p3);
             Shape::Triangle(Triangle::new(p1, p2, p3))
         }
         5 => {
@@ -449,6 +470,10 @@ pub fn polyline_points(d: &mut Dec, maxn: u32, r: i32) -> Vec<Point> {
         };
         v.push(p);
     }
+    // auxiliary word 4: one polyline in eight is closed (the last vertex repeats the first)
+    if v.len() >= 3 && d.aux_u(4, 0, 7) == 7 {
+        v.push(v[0]);
+    }
     // auxiliary words 5 and 6: one polyline in 32 gets 250..=300 further vertices (a random walk with
     // steps up to 3 px, with repeats and reversals): vertex counts beyond 255
     if d.aux_u(5, 0, 31) == 31 {
@@ -486,6 +511,25 @@ pub fn large_size(d: &mut Dec, lo: u32, hi: u32) -> u32 {
     }
 }
 
+/// Auxiliary word 6: half of the triangles get the structure of drawn UI shapes — an edge parallel to an
+/// axis (flat top / bottom, vertical side), a right angle, an obtuse corner on a flat edge; uniform random
+/// vertices almost never have it beyond a few pixels.
+pub fn structure_triangle(d: &mut Dec, a: Point, b: Point, c: Point) -> (Point, Point) {
+    match d.aux_u(6, 0, 7) {
+        0..=3 => (b, c),
+        4 => (b, Point::new(c.x, b.y)),                    // b-c horizontal
+        5 => (Point::new(a.x, b.y), c),                    // a-b vertical
+        6 => (Point::new(a.x, b.y), Point::new(c.x, a.y)), // right angle at a
+        _ => {
+            // b-c horizontal and both on the same side of a horizontally: obtuse corner at the nearer one
+            let dx1 = (b.x - a.x).abs().max(1);
+            let dx2 = dx1 + (c.x - a.x).abs().max(1);
+            let sgn = if b.x >= a.x { 1 } else { -1 };
+            (Point::new(a.x + sgn * dx1, b.y), Point::new(a.x + sgn * dx2, b.y))
+        }
+    }
+}
+
 /// A large shape of the given kind: sizes / diameters / vertex spans in `lo..=hi`, positioned so
 /// that it straddles the origin or lies up to `hi` away from it.
 pub fn large_shape(d: &mut Dec, kind: u32, lo: u32, hi: u32) -> Shape {
@@ -519,21 +563,7 @@ pub fn large_shape(d: &mut Dec, kind: u32, lo: u32, hi: u32) -> Shape {
             let a = Point::new(d.i(-span / 2, span / 2), d.i(-span / 2, span / 2));
             let b = a + Point::new(d.i(-span, span), d.i(-span, span));
             let c = a + Point::new(d.i(-span, span), d.i(-span, span));
-            // auxiliary word 6: half of the large triangles have the structure of drawn UI shapes: an edge
-            // parallel to an axis (flat top / bottom, vertical side), a right angle, an obtuse corner on a flat edge
-            let (b, c) = match d.aux_u(6, 0, 7) {
-                0..=3 => (b, c),
-                4 => (b, Point::new(c.x, b.y)),                       // b-c horizontal
-                5 => (Point::new(a.x, b.y), c),                       // a-b vertical
-                6 => (Point::new(a.x, b.y), Point::new(c.x, a.y)),    // right angle at a
-                _ => {
-                    // b-c horizontal and both on the same side of a horizontally: obtuse corner at the nearer one
-                    let dx1 = (b.x - a.x).abs().max(1);
-                    let dx2 = dx1 + (c.x - a.x).abs().max(1);
-                    let sgn = if b.x >= a.x { 1 } else { -1 };
-                    (Point::new(a.x + sgn * dx1, b.y), Point::new(a.x + sgn * dx2, b.y))
-                }
-            };
+            let (b, c) = structure_triangle(d, a, b, c);
             Shape::Triangle(Triangle::new(a, b, c))
         }
         5 => {
@@ -550,4 +580,145 @@ pub fn large_shape(d: &mut Dec, kind: u32, lo: u32, hi: u32) -> Shape {
             Shape::Sector(Sector::new(pos(d, w, w), w, angle_deg(d).deg(), angle_deg(d).deg()))
         }
     }
+}
+
+
+// ---------------------------------------------------------------------------------------------
+// Iterator protocol
+// ---------------------------------------------------------------------------------------------
+
+/// The provided methods of an iterator (`count`, `last`, `fold`, `for_each`, `nth`, `collect`, `skip`, ...)
+/// must agree with repeated `next()`, also on an iterator that has already been advanced — in particular
+/// advanced exactly to the end of a row or to the end. `make` builds a fresh iterator; the ground truth is
+/// a plain `while let Some(x) = it.next()` loop. Uses up to 5 tape words.
+pub fn iterator_protocol<T, I>(make: &dyn Fn() -> I, d: &mut Dec, what: &str) -> crate::engine::Res
+where
+    T: PartialEq + core::fmt::Debug + Clone,
+    I: Iterator<Item = T>,
+{
+    use crate::engine::fail;
+    const BUDGET: usize = 60_000;
+    let mut full: Vec<T> = vec![];
+    let mut it = make();
+    while let Some(x) = it.next() {
+        if full.len() >= BUDGET {
+            return Ok(()); // too long for this clause (the budgets of the caller judge termination)
+        }
+        full.push(x);
+    }
+    // a fused end: further calls keep returning None
+    for _ in 0..2 {
+        if let Some(x) = it.next() {
+            return fail(format!("{}:iterator_not_fused", what), format!("next() after the end returned {:?}", x));
+        }
+    }
+    let n = full.len();
+    // how far the iterator is advanced first: 0, the end, anywhere, or a multiple of the first run length
+    // (the number of leading items that differ from the first one only ... by position: approximated by
+    // the index at which the Debug text of the item stops sharing the last coordinate with the first item)
+    let run = {
+        let key = |x: &T| {
+            let s = format!("{:?}", x);
+            s.rsplit("y: ").next().map(|t| t.to_string()).unwrap_or(s)
+        };
+        if n == 0 {
+            1
+        } else {
+            let k0 = key(&full[0]);
+            full.iter().position(|x| key(x) != k0).unwrap_or(n).max(1)
+        }
+    };
+    let k = match d.u(0, 4) {
+        0 => 0,
+        1 => n,
+        2 => (run * d.u(0, (n / run) as u32) as usize).min(n),
+        3 => n.saturating_sub(d.u(0, 2) as usize),
+        _ => d.u(0, n as u32) as usize,
+    };
+    let mut it = make();
+    match d.u(0, 2) {
+        0 => {
+            for _ in 0..k {
+                it.next();
+            }
+        }
+        1 => {
+            if k > 0 {
+                it.nth(k - 1);
+            }
+        }
+        _ => {
+            let taken = it.by_ref().take(k).count();
+            if taken != k.min(n) {
+                return fail(format!("{}:iterator_take_count", what), format!("by_ref().take({}).count() = {} on an iterator of {} items", k, taken, n));
+            }
+        }
+    }
+    let tail = &full[k.min(n)..];
+    let (lo, hi) = it.size_hint();
+    if lo > tail.len() || hi.map_or(false, |h| h < tail.len()) {
+        return fail(format!("{}:iterator_size_hint", what), format!("size_hint() = {:?} after {} of {} items, {} remain", (lo, hi), k, n, tail.len()));
+    }
+    let method = d.u(0, 7);
+    let report = |name: &str, got: String, exp: String| fail(format!("{}:iterator_{}", what, name), format!("after advancing by {} of {} items (first run {}): {}() gives {}, repeated next() gives {}", k, n, run, name, got, exp));
+    match method {
+        0 => {
+            let c = it.count();
+            if c != tail.len() {
+                return report("count", c.to_string(), tail.len().to_string());
+            }
+        }
+        1 => {
+            let l = it.last();
+            if l.as_ref() != tail.last() {
+                return report("last", format!("{:?}", l), format!("{:?}", tail.last()));
+            }
+        }
+        2 => {
+            let v = it.fold(Vec::new(), |mut v, x| {
+                v.push(x);
+                v
+            });
+            if v != tail {
+                return report("fold", format!("{} items starting {:?}", v.len(), v.first()), format!("{} items starting {:?}", tail.len(), tail.first()));
+            }
+        }
+        3 => {
+            let mut v = Vec::new();
+            it.for_each(|x| v.push(x));
+            if v != tail {
+                return report("for_each", format!("{} items starting {:?}", v.len(), v.first()), format!("{} items starting {:?}", tail.len(), tail.first()));
+            }
+        }
+        4 => {
+            let v: Vec<T> = it.collect();
+            if v != tail {
+                return report("collect", format!("{} items starting {:?}", v.len(), v.first()), format!("{} items starting {:?}", tail.len(), tail.first()));
+            }
+        }
+        5 => {
+            let j = d.u(0, tail.len() as u32 + 1) as usize;
+            let x = it.nth(j);
+            if x.as_ref() != tail.get(j) {
+                return report("nth", format!("{:?}", x), format!("{:?}", tail.get(j)));
+            }
+            let y = it.next();
+            if y.as_ref() != tail.get(j + 1).filter(|_| j < tail.len()) {
+                return report("next_after_nth", format!("{:?}", y), format!("{:?}", tail.get(j + 1)));
+            }
+        }
+        6 => {
+            let j = d.u(0, tail.len() as u32 + 1) as usize;
+            let c = it.skip(j).count();
+            if c != tail.len().saturating_sub(j) {
+                return report("skip_count", c.to_string(), tail.len().saturating_sub(j).to_string());
+            }
+        }
+        _ => {
+            if !it.eq(tail.iter().cloned()) {
+                return report("eq", "a different sequence".into(), format!("{} items", tail.len()));
+            }
+        }
+    }
+    Ok(())
 }
